@@ -32,6 +32,34 @@ var remoteServers = []struct {
 }{
 	{regs.Ref{Ent: []uint{1}, Feat: 4}, func(w *regs.W) api.FeatureLocalInterface { return w.LocalClient }},  // Measurement server
 	{regs.Ref{Ent: []uint{2}, Feat: 3}, func(w *regs.W) api.FeatureLocalInterface { return w.LocalClient2 }}, // LoadControl server
+	{regs.Ref{Ent: []uint{3}, Feat: 2}, func(w *regs.W) api.FeatureLocalInterface { return w.LocalClient2 }}, // LoadControl server of an entity announced later
+}
+
+// extraEntities are entities a peer may announce later on (by a partial "added" entry or by a
+// complete notification that lists them); like everything else they have the same numbers on every peer.
+var extraEntities = []world.EntSpec{
+	{Addr: []uint{3}, Type: model.EntityTypeTypeEV, Feats: []world.FeatSpec{
+		{ID: 1, Type: model.FeatureTypeTypeMeasurement, Role: model.RoleTypeClient},
+		{ID: 2, Type: model.FeatureTypeTypeLoadControl, Role: model.RoleTypeServer, Funcs: []world.FuncSpec{{Fn: model.FunctionTypeLoadControlLimitListData, Read: true, Write: true}}},
+	}},
+	{Addr: []uint{4}, Type: model.EntityTypeTypeHeatPumpAppliance, Feats: []world.FeatSpec{
+		{ID: 1, Type: model.FeatureTypeTypeElectricalConnection, Role: model.RoleTypeClient},
+	}},
+}
+
+// entDomain: every entity a peer may have besides its device information entity [0], in the order
+// in which complete announcements list them.
+func entDomain() []world.EntSpec { return append(regs.PeerEntities(), extraEntities...) }
+
+func entKey(addr []uint) string { return fmt.Sprint(addr) }
+
+// fullTree is the set of entities (keys) every peer announces in its discovery reply.
+func fullTree() map[string]bool {
+	tr := map[string]bool{}
+	for _, e := range regs.PeerEntities() {
+		tr[entKey(e.Addr)] = true
+	}
+	return tr
 }
 
 type watch struct {
@@ -41,12 +69,14 @@ type watch struct {
 }
 
 type machine struct {
-	w          *regs.W
-	hist       []string
-	ops        []string
-	pending    map[int]int // pending approvals per peer
-	watches    []watch     // removed connections: nothing may be written to them any more
-	ent2Gone   map[int]bool
+	w       *regs.W
+	hist    []string
+	ops     []string
+	pending map[int]int // pending approvals per peer
+	watches []watch     // removed connections: nothing may be written to them any more
+	// tree: per peer the entities (besides [0]) it has at present, by what it announced; nil for a
+	// peer that has not announced itself
+	tree       map[int]map[string]bool
 	shared     bool // >= 2 peers held state on the same local feature at the moment of a removal
 	removals   int
 	mu         sync.Mutex
@@ -62,6 +92,25 @@ type machine struct {
 
 func (m *machine) logf(format string, a ...any) { m.hist = append(m.hist, fmt.Sprintf(format, a...)) }
 func (m *machine) history() string              { return "\n history:\n  " + strings.Join(m.hist, "\n  ") }
+
+// has: the peer has announced itself and has this entity at present.
+func (m *machine) has(pi int, ent []uint) bool { return m.tree[pi] != nil && m.tree[pi][entKey(ent)] }
+
+// removedInitial: an entity of the peer's discovery reply that it has announced as removed since.
+func (m *machine) removedInitial(pi int, ent []uint) bool {
+	return m.tree[pi] != nil && fullTree()[entKey(ent)] && !m.tree[pi][entKey(ent)]
+}
+
+// syncEnts: the peer's model of its own tree follows what it announced.
+func (m *machine) syncEnts(pi int) {
+	var ents []world.EntSpec
+	for _, e := range entDomain() {
+		if m.tree[pi][entKey(e.Addr)] {
+			ents = append(ents, e)
+		}
+	}
+	m.w.Peers[pi].Ents = world.WithDeviceInfo(ents)
+}
 
 func (m *machine) live(t *rapid.T, label string) int {
 	var idx []int
@@ -129,11 +178,22 @@ func inEntity(entry string, ent string) bool { return strings.HasPrefix(entry, e
 
 // ---- operations that build up state
 
+// laterEntityClient: sometimes the Measurement client of an entity the peer announced later on is
+// the client of a Measurement call (the shared call generator only knows the initial tree).
+func (m *machine) laterEntityClient(t *rapid.T, c regs.Call) regs.Call {
+	if c.Type == model.FeatureTypeTypeMeasurement && m.has(c.Peer, []uint{3}) && rapid.IntRange(0, 2).Draw(t, "clientOfLaterEntity") == 0 {
+		c.Client = regs.Ref{Ent: []uint{3}, Feat: 1}
+		world.Label("call/client-of-later-entity")
+	}
+	return c
+}
+
 func (m *machine) subscribe(t *rapid.T) {
 	c := regs.DrawCall(t, m.w, "sub")
-	if m.w.Peers[c.Peer].Gone || (m.ent2Gone[c.Peer] && len(c.Client.Ent) == 1 && c.Client.Ent[0] == 2) {
+	if m.w.Peers[c.Peer].Gone || m.removedInitial(c.Peer, c.Client.Ent) {
 		t.Skip("gone")
 	}
+	c = m.laterEntityClient(t, c)
 	_, ok := m.w.Do(c, world.SubscribeCall(m.w.ClientAddr(c), m.w.ServerAddr(c), c.Type))
 	m.logf("subscribe %s => %v", c, ok)
 	m.ops = append(m.ops, "sub")
@@ -141,9 +201,10 @@ func (m *machine) subscribe(t *rapid.T) {
 
 func (m *machine) bind(t *rapid.T) {
 	c := regs.DrawCall(t, m.w, "bind")
-	if m.w.Peers[c.Peer].Gone || (m.ent2Gone[c.Peer] && len(c.Client.Ent) == 1 && c.Client.Ent[0] == 2) {
+	if m.w.Peers[c.Peer].Gone || m.removedInitial(c.Peer, c.Client.Ent) {
 		t.Skip("gone")
 	}
+	c = m.laterEntityClient(t, c)
 	_, ok := m.w.Do(c, world.BindCall(m.w.ClientAddr(c), m.w.ServerAddr(c), c.Type))
 	m.logf("bind %s => %v", c, ok)
 	m.ops = append(m.ops, "bind")
@@ -152,8 +213,11 @@ func (m *machine) bind(t *rapid.T) {
 func (m *machine) localClientOp(t *rapid.T) {
 	pi := m.live(t, "peer")
 	rs := remoteServers[rapid.IntRange(0, len(remoteServers)-1).Draw(t, "remoteServer")]
-	if m.ent2Gone[pi] && rs.ref.Ent[0] == 2 {
-		t.Skip("gone")
+	if m.tree[pi] != nil && !m.has(pi, rs.ref.Ent) {
+		t.Skip("gone / not announced yet")
+	}
+	if m.tree[pi] == nil && !fullTree()[entKey(rs.ref.Ent)] {
+		t.Skip("not in the tree the peer is going to announce")
 	}
 	a := m.w.Peers[pi].FA(rs.ref.Ent, rs.ref.Feat)
 	if rapid.Bool().Draw(t, "bindNotSub") {
@@ -310,8 +374,8 @@ func (m *machine) othersUntouchedAndServed(t *rapid.T, victim int, before map[in
 		cmd := model.CmdType{}
 		reflect.ValueOf(&cmd).Elem().FieldByName(f.CmdField).Set(reflect.New(f.DataType))
 		d := p.Msg(model.CmdClassifierTypeRead, p.FA([]uint{1}, 1), m.w.Servers[0].F.Address(), false, nil, cmd)
-		if p.Ents == nil {
-			// all a peer that has not announced itself can ask for: node management data
+		if p.Ents == nil || !m.has(pi, []uint{1}) {
+			// all a peer that has not announced itself (or has announced its entity [1] as removed) can ask for: node management data
 			d = p.Msg(model.CmdClassifierTypeRead, p.NM(), world.LocalNM(), false, nil, model.CmdType{NodeManagementDetailedDiscoveryData: &model.NodeManagementDetailedDiscoveryDataType{}})
 		}
 		p.Send(d)
@@ -344,7 +408,7 @@ func (m *machine) disconnect(t *rapid.T) {
 	other := -1
 	if during {
 		for pi, q := range m.w.Peers {
-			if pi != victim && !q.Gone && q.Ents != nil {
+			if pi != victim && !q.Gone && q.Ents != nil && m.has(pi, []uint{1}) {
 				other = pi
 			}
 		}
@@ -485,6 +549,7 @@ func (m *machine) announceLate(t *rapid.T) {
 	}
 	p := m.w.Peers[pi]
 	p.Announce(regs.PeerEntities())
+	m.tree[pi] = fullTree()
 	if rapid.Bool().Draw(t, "answersCoreRequests") {
 		p.AnswerCoreRequests()
 		p.Cap.Drain()
@@ -523,7 +588,7 @@ func (m *machine) reconnect(t *rapid.T) {
 		p.AnswerCoreRequests()
 		p.Cap.Drain()
 	}
-	m.ent2Gone[pi] = false
+	m.tree[pi] = fullTree()
 	m.pending[pi] = 0
 	m.w.Events.Drain()
 	m.reconnects++
@@ -534,7 +599,7 @@ func (m *machine) reconnect(t *rapid.T) {
 
 func (m *machine) entityRemoved(t *rapid.T) {
 	victim := m.live(t, "victim")
-	if m.ent2Gone[victim] || m.w.Peers[victim].Ents == nil {
+	if !m.has(victim, []uint{2}) {
 		t.Skip("already removed / not announced")
 	}
 	p := m.w.Peers[victim]
@@ -564,19 +629,38 @@ func (m *machine) entityRemoved(t *rapid.T) {
 	p.Send(p.Msg(model.CmdClassifierTypeNotify, p.NM(), world.LocalNM(), false, nil, cmd))
 	m.w.Sync()
 	p.Cap.Drain()
-	m.ent2Gone[victim] = true
+	delete(m.tree[victim], "[2]")
+	m.syncEnts(victim)
 	m.removals++
 	m.logf("peer%d announces entity [2] removed (had %+v)", victim+1, before[victim])
 	m.ops = append(m.ops, "entity-removed")
+	m.checkCascade(t, victim, before, []string{"[2]"}, "", "entity-removal")
+}
+
+// checkCascade: after a discovery notification of the victim by which the entities gone (keys)
+// disappeared, all and only the victim's registry entries and the client-side bookkeeping that refer
+// to these entities are gone, one remove event was published per entry and per entity (none for
+// other devices), and every other peer is untouched and served. shape "" is the notification with
+// the single entry "entity [2] removed".
+func (m *machine) checkCascade(t *rapid.T, victim int, before map[int]snap, gone []string, shape, what string) {
+	p := m.w.Peers[victim]
+	suffix, msg := "", fmt.Sprintf("entity [2] of peer%d was removed", victim+1)
+	if shape != "" {
+		suffix, msg = "/"+shape, fmt.Sprintf("the %s of peer%d by which its entities %v disappeared", shape, victim+1, gone)
+	}
 	after := m.snapshot(victim)
 	keep := func(l []string, clientSide bool) []string {
 		var out []string
 		for _, x := range l {
-			if clientSide {
-				if !inEntity(x, "[2]") {
-					out = append(out, x)
+			refers := false
+			for _, g := range gone {
+				if clientSide {
+					refers = refers || inEntity(x, g)
+				} else {
+					refers = refers || strings.Contains(x, ":"+g+"/")
 				}
-			} else if !strings.Contains(x, ":[2]/") {
+			}
+			if !refers {
 				out = append(out, x)
 			}
 		}
@@ -584,13 +668,182 @@ func (m *machine) entityRemoved(t *rapid.T) {
 	}
 	want := snap{Subs: keep(before[victim].Subs, true), Binds: keep(before[victim].Binds, true), Book: keep(before[victim].Book, false), Resolved: true}
 	if !reflect.DeepEqual(nz(want.Subs), nz(after.Subs)) || !reflect.DeepEqual(nz(want.Binds), nz(after.Binds)) || !reflect.DeepEqual(nz(want.Book), nz(after.Book)) || !after.Resolved {
-		world.Fail(t, "C10/entity-removal-cascade", "after entity [2] of peer%d was removed its state is %+v, expected %+v%s", victim+1, after, want, m.history())
+		world.Fail(t, "C10/entity-removal-cascade"+suffix, "after %s its state is %+v, expected %+v%s", msg, after, want, m.history())
 	}
 	subs, binds, _, ents, foreign := m.countRemoveEvents(m.w.Events.Drain(), p.Ski)
-	if subs != len(before[victim].Subs)-len(want.Subs) || binds != len(before[victim].Binds)-len(want.Binds) || ents != 1 || foreign != 0 {
-		world.Fail(t, "C10/remove-events/entity", "entity removal published %d subscription, %d binding, %d entity remove events, %d for other devices; expected %d, %d, 1, 0%s", subs, binds, ents, foreign, len(before[victim].Subs)-len(want.Subs), len(before[victim].Binds)-len(want.Binds), m.history())
+	if subs != len(before[victim].Subs)-len(want.Subs) || binds != len(before[victim].Binds)-len(want.Binds) || ents != len(gone) || foreign != 0 {
+		world.Fail(t, "C10/remove-events/entity"+suffix, "entity removal published %d subscription, %d binding, %d entity remove events, %d for other devices; expected %d, %d, %d, 0%s", subs, binds, ents, foreign, len(before[victim].Subs)-len(want.Subs), len(before[victim].Binds)-len(want.Binds), len(gone), m.history())
 	}
-	m.othersUntouchedAndServed(t, victim, before, "entity-removal")
+	m.othersUntouchedAndServed(t, victim, before, what)
+}
+
+// ---- discovery notifications with several entries
+
+// entEntry is one entityInformation element; change is nil in complete announcements.
+type entEntry struct {
+	spec   world.EntSpec
+	change *model.NetworkManagementStateChangeType
+}
+
+// discoveryData renders the entries; the features of an entity are listed with the entries that
+// announce it as present. Field devices leave the device part of entity and feature addresses out.
+func discoveryData(p *world.Peer, entries []entEntry, omitDevice bool) *model.NodeManagementDetailedDiscoveryDataType {
+	data := p.DiscoveryData(nil, nil)
+	addr := p.Addr
+	dev := &addr
+	if omitDevice {
+		dev = nil
+	}
+	for _, en := range entries {
+		data.EntityInformation = append(data.EntityInformation, world.EntityInfo(dev, en.spec, en.change))
+		if en.change != nil && *en.change == model.NetworkManagementStateChangeTypeRemoved {
+			continue
+		}
+		for _, f := range en.spec.Feats {
+			data.FeatureInformation = append(data.FeatureInformation, world.FeatureInfo(dev, en.spec, f))
+		}
+	}
+	return data
+}
+
+// entityNotification: the common part of the two operations below.
+func (m *machine) entityNotification(t *rapid.T, victim int, entries []entEntry, descr []string, gone []string, partial bool, shape string) {
+	p := m.w.Peers[victim]
+	before := map[int]snap{}
+	for pi := range m.w.Peers {
+		before[pi] = m.snapshot(pi)
+	}
+	if len(gone) > 0 && m.sharedState(victim) {
+		m.shared = true
+	}
+	m.w.Events.Drain()
+	omitDevice := rapid.Bool().Draw(t, "addressesWithoutDevice")
+	cmd := model.CmdType{NodeManagementDetailedDiscoveryData: discoveryData(p, entries, omitDevice)}
+	if partial {
+		cmd.Function = ptr(model.FunctionTypeNodeManagementDetailedDiscoveryData)
+		cmd.Filter = []model.FilterType{*model.NewFilterTypePartial()}
+	}
+	p.Send(p.Msg(model.CmdClassifierTypeNotify, p.NM(), world.LocalNM(), false, nil, cmd))
+	m.w.Sync()
+	p.Cap.Drain()
+	m.syncEnts(victim)
+	if len(gone) > 0 {
+		m.removals++
+	}
+	holding := 0
+	for _, g := range gone {
+		for _, x := range append(append(append([]string{}, before[victim].Subs...), before[victim].Binds...), before[victim].Book...) {
+			if inEntity(x, g) || strings.Contains(x, ":"+g+"/") {
+				holding++
+			}
+		}
+	}
+	if holding > 0 {
+		world.Label("entity-notify/" + shape + "/removed-entity-held-state")
+	}
+	m.logf("peer%d sends a %s (addresses without device: %v): %s => entities that disappear: %v (had %+v)", victim+1, shape, omitDevice, strings.Join(descr, ", "), gone, before[victim])
+	m.ops = append(m.ops, shape+":"+strings.Join(descr, ","))
+	m.checkCascade(t, victim, before, gone, shape, "entity-notification")
+}
+
+// entitiesNotified: a partial notification with 1-3 entries for different entities, in any order:
+// known entities announced as removed, entities the stack does not know (never announced or
+// removed before) announced as removed, and now and then an absent entity announced as added.
+func (m *machine) entitiesNotified(t *rapid.T) {
+	victim := m.live(t, "victim")
+	if m.tree[victim] == nil {
+		t.Skip("not announced")
+	}
+	tr := m.tree[victim]
+	// entity [1] carries most of the state of a history: it goes less often than the others
+	dom := entDomain()
+	cands := []int{0}
+	for i := 1; i < len(dom); i++ {
+		cands = append(cands, i, i)
+	}
+	n := rapid.IntRange(1, 3).Draw(t, "entries")
+	var entries []entEntry
+	var descr, gone []string
+	listed := map[string]bool{}
+	unknownListed, unknownBeforeKnown, known := false, false, 0
+	for i := 0; i < n; i++ {
+		e := dom[cands[rapid.IntRange(0, len(cands)-1).Draw(t, fmt.Sprintf("e%d.entity", i))]]
+		k := entKey(e.Addr)
+		if listed[k] {
+			continue // an entity is listed once per notification
+		}
+		listed[k] = true
+		switch {
+		case tr[k]:
+			entries = append(entries, entEntry{e, ptr(model.NetworkManagementStateChangeTypeRemoved)})
+			descr = append(descr, "removed "+k)
+			gone = append(gone, k)
+			delete(tr, k)
+			known++
+			if unknownListed {
+				unknownBeforeKnown = true
+			}
+		case rapid.IntRange(0, 3).Draw(t, fmt.Sprintf("e%d.addedNotRemovedUnknown", i)) == 0:
+			entries = append(entries, entEntry{e, ptr(model.NetworkManagementStateChangeTypeAdded)})
+			descr = append(descr, "added "+k)
+			tr[k] = true
+		default:
+			entries = append(entries, entEntry{e, ptr(model.NetworkManagementStateChangeTypeRemoved)})
+			descr = append(descr, "removed "+k+" (not known)")
+			unknownListed = true
+		}
+	}
+	world.Label("op/entity-notify/partial")
+	if known >= 2 {
+		world.Label("entity-notify/partial/several-known-removed")
+	}
+	if unknownBeforeKnown {
+		world.Label("entity-notify/partial/unknown-removed-before-known")
+	}
+	m.entityNotification(t, victim, entries, descr, gone, true, "partial-notification-with-several-entries")
+}
+
+// fullNotification: a complete (filter-less) notification: entity [0], a subset of the entities the
+// peer has (those left out are thereby announced as removed) and possibly entities it did not have.
+func (m *machine) fullNotification(t *rapid.T) {
+	victim := m.live(t, "victim")
+	if m.tree[victim] == nil {
+		t.Skip("not announced")
+	}
+	tr := m.tree[victim]
+	entries := []entEntry{{world.WithDeviceInfo(nil)[0], nil}}
+	descr := []string{"[0]"}
+	var gone []string
+	added := 0
+	for i, e := range entDomain() {
+		k := entKey(e.Addr)
+		if tr[k] {
+			drop := 4
+			if i == 0 {
+				drop = 8 // entity [1] goes less often, see above
+			}
+			if rapid.IntRange(0, drop-1).Draw(t, "drop"+k) != 0 {
+				entries = append(entries, entEntry{e, nil})
+				descr = append(descr, k)
+			} else {
+				gone = append(gone, k)
+				delete(tr, k)
+			}
+		} else if rapid.IntRange(0, 2).Draw(t, "add"+k) == 0 {
+			entries = append(entries, entEntry{e, nil})
+			descr = append(descr, k+" (new)")
+			tr[k] = true
+			added++
+		}
+	}
+	world.Label("op/entity-notify/full")
+	if len(gone) > 0 && added > 0 {
+		world.Label("entity-notify/full/entities-replaced")
+	}
+	if len(gone) > 0 && added >= len(gone) {
+		world.Label("entity-notify/full/at-least-as-many-new-as-dropped")
+	}
+	m.entityNotification(t, victim, entries, descr, gone, false, "full-notification")
 }
 
 // entityReannounced: the peer announces its entity [2] again while it is known (a repeated
@@ -598,7 +851,7 @@ func (m *machine) entityRemoved(t *rapid.T) {
 // feature objects, and later removals must still find the entries that refer to them.
 func (m *machine) entityReannounced(t *rapid.T) {
 	pi := m.live(t, "peer")
-	if m.ent2Gone[pi] {
+	if m.removedInitial(pi, []uint{2}) {
 		t.Skip("entity removed")
 	}
 	p := m.w.Peers[pi]
@@ -650,8 +903,13 @@ func TestTeardown(t *testing.T) {
 		// are node management subscriptions / bindings, under an address without device part)
 		silent := rapid.SampledFrom([]int{0, 0, 0, 1, 2}).Draw(t, "unannouncedPeers")
 		world.Label(fmt.Sprintf("unannouncedPeers/%d", silent))
-		m := &machine{w: regs.NewWithUnannounced(3, silent), pending: map[int]int{}, ent2Gone: map[int]bool{}}
+		m := &machine{w: regs.NewWithUnannounced(3, silent), pending: map[int]int{}, tree: map[int]map[string]bool{}}
 		defer m.w.Teardown()
+		for i, p := range m.w.Peers {
+			if p.Ents != nil {
+				m.tree[i] = fullTree()
+			}
+		}
 		// most peers answer what the stack asked them after their announcement
 		for i, p := range m.w.Peers {
 			if rapid.IntRange(0, 3).Draw(t, fmt.Sprintf("peer%d.answersCoreRequests", i+1)) != 0 {
@@ -677,6 +935,8 @@ func TestTeardown(t *testing.T) {
 			"dataChange":        m.dataChange,
 			"disconnect":        m.disconnect,
 			"entityRemoved":     m.entityRemoved,
+			"entitiesNotified":  m.entitiesNotified,
+			"fullNotification":  m.fullNotification,
 			"entityReannounced": m.entityReannounced,
 			"lateResponse":      m.lateResponse,
 			"reconnect":         m.reconnect,
